@@ -3,6 +3,8 @@
 # 1. confirm the seeded change in a scratch worktree: builds, touched packages' previously-passing tests still pass,
 #    demonstration passes without and fails with the change;  2. apply it to /repo, run the checks, undo.
 set -u
+# /repo is shared by integration (cherry-picks) and seeded runs (apply/undo): serialise them
+exec 9>/tmp/repo.lock; flock 9
 ID=$1; SRC=$2; DEMO=$3; shift 3
 export GOFLAGS=-mod=mod GOPROXY=off GOSUMDB=off GOTOOLCHAIN=local
 W=/tmp/sv-$ID
